@@ -243,6 +243,44 @@ def run(ctx):
                               {'table': repr(T), 'field': repr(f), 'complement': compl, 'real': got, 'want': want,
                                'argument': repr(typ if name == 'selectisinstance' else obj)})
 
+    # ---- positional selections of positional selections (rowslice / head / tail / skip nested two and three deep) against islice
+    import itertools as _it
+    for ci in range(300 if ctx.thorough() else 80):
+        nrows_ = rng.choice([0, 1, 3, 6, 9, 12])
+        T = [('a', 'b')] + [(i, 'r%d' % i) for i in range(nrows_)]
+        view, want = T, list(T[1:])
+        desc = []
+        for depth in range(rng.choice([2, 2, 3])):
+            kind = rng.choice(['rowslice', 'rowslice', 'head', 'tail', 'skip0'])
+            if kind == 'rowslice':
+                a = rng.choice([None, 0, 1, 2, 4])
+                b = rng.choice([None, 1, 2, 3, 5, 8])
+                c = rng.choice([None, 1, 2, 3])
+                view = etl.rowslice(view, a, b, c)
+                want = list(_it.islice(want, a, b, c))
+                desc.append('rowslice(%r, %r, %r)' % (a, b, c))
+            elif kind == 'head':
+                k = rng.choice([0, 1, 2, 4])
+                view = etl.head(view, k)
+                want = want[:k]
+                desc.append('head(%d)' % k)
+            elif kind == 'tail':
+                k = rng.choice([0, 1, 2, 4])
+                view = etl.tail(view, k)
+                want = want[max(0, len(want) - k):] if k else []
+                desc.append('tail(%d)' % k)
+            else:
+                view = etl.rowslice(view, 1, None)
+                want = want[1:]
+                desc.append('rowslice(1, None)')
+        got = util.run_show(lambda: view)
+        exp = util.show_out([('a', 'b')] + want)
+        ctx.case(('nested-positional', nrows_, tuple(desc)))
+        ctx.count('op:nested-positional')
+        if got != exp:
+            ctx.spec_fail('rowslice|nested|wrong-rows', 'a positional selection of a positional selection does not select by position as islice would',
+                          {'nrows': nrows_, 'selections (inner first)': desc, 'real': got, 'want': exp})
+
 
 def replay(d):
     print('replay case:', d.get('case'))
